@@ -15,7 +15,7 @@ claim("C16",
 
 claim("C15",
       "Bounded model checking of the real codecs: zig-zag (both copies, all i64/u64), DeltaEncoding signed (n<=3, all i64) and unsigned (sorted, n<=2, all u64), "
-      "DeltaBitPacked (n<=2), BitPackedInts at EVERY width 1..=64 with n = min(values-per-word + 1, 9) crossing the word boundary (values symbolic; 64 queries), bits_needed (all u64), "
+      "DeltaBitPacked (n<=2; through to_bytes/from_bytes for n<=1, the [0] vs [] distinction included), BitPackedInts at EVERY width 1..=64 with n = min(values-per-word + 1, 9) crossing the word boundary (values symbolic; 64 queries), bits_needed (all u64), "
       "RunLengthEncoding random access / iteration (n=2), BitVector (n=5+push): decode(encode(x)) == x, random access agrees with full decoding, to_bytes/from_bytes changes nothing.",
       "Lengths and bit widths are concrete per query, element values fully symbolic. Outside the bound: longer sequences (63/64/65 element boundaries), dictionary encoding, codec selector, "
       "compressed property columns and adjacency chunks, succinct structures, RunLengthEncoding::decode for n>=2 (solver ran out of memory; optional thorough harnesses), arbitrary-byte decoding.",
@@ -24,7 +24,7 @@ claim("C15",
 claim("C01",
       "Bounded model checking of the visibility kernel every read goes through: VersionInfo::is_visible_at/is_visible_to against the declarative snapshot rule for ALL u64 epochs and "
       "transaction ids; VersionChain (3 symbolic versions + delete + rollback of one creator) returns the newest version the rule admits and never a rolled-back one; "
-      "chain gc never changes what a reader at or after the horizon sees.",
+      "chain gc never changes what a reader at or after the horizon sees; a second (stale) delete of an already deleted single-version chain changes no viewer's answer.",
       "Kernel level only so far: session-level histories over the real store (dirty reads through start-epoch stamping, unversioned properties/labels) and reads through the query "
       "languages are outside this check's bound (DESIGN.md section 4 C01).",
       "DESIGN.md section 4 C01")
@@ -74,13 +74,16 @@ claim("C06",
       "commit/abort filter (Kani compiler crash), append-after-crash, the writer side (optional thorough harness, out of memory), checkpoint files and rotation are outside.",
       "DESIGN.md 9.4 C06")
 claim("C10",
-      "Bounded model checking of zone-map pruning against the filter's own semantics, two pieces of real code: PropertyStorage::{set,might_match} / ZoneMapEntry::might_contain_* versus "
-      "ExpressionPredicate's comparison kernels, for two stored values and a literal over Int64xInt64xInt64 (all i64), Float64 (all non-NaN doubles), and mixed kinds (Null, Bool, "
-      "Timestamp with Int64) and a column holding an Int64 next to a Float64, all six comparison operators: whenever the filter matches a stored value, pruning does not answer "
-      "'no match'. One open known finding (a column mixing integers beyond 2^53 with floats) is carved out and pinned by a witness harness.",
-      "Pruning kernel only, one column, two nodes, no removals; NaN stored values, strings, the planner's use of the answer (edge variables), property indexes, the range path, plan cache "
-      "and factorized execution are outside.",
-      "DESIGN.md 9.4 C10")
+      "Bounded model checking of zone-map pruning against the filter's own semantics, two pieces of real code: PropertyStorage::{set,remove,rebuild_zone_maps,might_match,"
+      "might_match_range} / ZoneMapEntry::might_contain_* versus ExpressionPredicate's comparison kernels, for two stored values and a literal over Int64xInt64xInt64 (all i64), "
+      "Float64 (all non-NaN doubles), mixed kinds (Null, Bool, Timestamp with Int64) and a column holding an Int64 next to a Float64, all six comparison operators and the range form "
+      "(two-sided, half-open, unbounded; inclusive or not), also after one update of the column (overwrite, remove, remove+rebuild, overwrite+rebuild, remove then insert): whenever the "
+      "filter matches a live stored value, pruning does not answer 'no match'. Plus the planner's range-pattern extraction (Planner::extract_between_predicate via a cfg(kani) wrapper): "
+      "for all 16 pairs of < <= > >=, both operand orders per conjunct and all i64 bounds, the extracted (min, max, inclusive flags) range contains an i64 exactly when the conjunction "
+      "holds for it. One open known finding (a column mixing integers beyond 2^53 with floats) is carved out and pinned by a witness harness.",
+      "Pruning and range-extraction kernels only: one column, two nodes, one update; NaN stored values, strings, property indexes, find_nodes_in_range itself, the planner's zone-map "
+      "decision over a populated store (optional thorough harnesses, no verdict within 16 GB), edge variables, plan cache and factorized execution are outside.",
+      "DESIGN.md 9.4 C10, 9.9")
 claim("C11",
       "Bounded model checking of the real expression evaluator kernels (eval_binary_op / eval_unary_op): for p = a OP b with OP in {=,<>,<,<=,>,>=,AND,OR,XOR} and operands over 11 kind "
       "pairs of Null/Bool/Int64/Float64/Timestamp (all payload bits, NaN and mismatched kinds included), exactly one of p, NOT p, p IS NULL is true.",
